@@ -301,10 +301,64 @@ def apply_contract(run, st, name, args, ins, bindings=None):
     cname = V.display_name(callee)
     site = ins.get("pos", "")
     run.V.note_call(run.fname, cname)
+    # `errcases resultK`: whether the error result is nil is decided inside the callee (not by an entry-state
+    # condition); the caller is verified once for each outcome (the call is re-executed on both forks)
+    errcase = {}
+    for kind, txt in c.other:
+        if kind == "errcases":
+            rn_ = txt.strip()
+            key = ("errcase", rn_, ins.get("reg"), st.block)
+            pol = st.decided.get(key)
+            if pol is None:
+                for pol in (True, False):
+                    s2 = st.fork()
+                    s2.pc -= 1
+                    s2.decided[key] = pol
+                    run.work.append(s2)
+                raise PathEnd()
+            errcase[rn_] = pol
     env = {}
     for i, p in enumerate(callee["params"]):
         nm = c.params[i] if i < len(c.params) else p["name"]
         env[nm] = wrap_typed(prog, args[i], p["type"])
+    # ghost (universally quantified) field elements of the callee's contract: instantiated by the caller's
+    # `instantiate <callee> g = expr, ...` clause, else by a fresh value (any instance of a proved universal
+    # statement may be assumed)
+    ghosts = [g.strip() for kind, txt in c.other if kind == "ghost" for g in txt.split(",") if g.strip()]
+    if ghosts and not c.variant:
+        from .symex import ELEMENT
+        key = ("ghostinst", ins.get("reg"), st.block, ins.get("pos", ""))
+        have = st.cache.get(key)
+        if have is None:
+            inst = {}
+            for kind, txt in run.c.other:
+                if kind != "instantiate":
+                    continue
+                target, _, rest = txt.strip().partition(" ")
+                if not (cname == target or cname.endswith("." + target) or short(cname).endswith("." + target)):
+                    continue
+                from .cparse import split_top
+                for part in split_top(rest):
+                    g, _, e = part.partition("=")
+                    inst[g.strip()] = parse_expr(e.strip())
+            have = {}
+            evc = Evaluator(run, st, run.old_mem, run.contract_env(st), phase="pre")
+            evc.pkg = run.f.get("pkg", "")
+            for g in ghosts:
+                o = run.new_obj(ELEMENT, "ghost:" + g, "alloc", oid=run.site_oid(st, "ghost:" + g, str(ins.get("reg"))))
+                if g in inst and run.mode == "ring":
+                    from .ring import RVal
+                    val = evc.ev(inst[g], False)
+                    poly = evc.ring_of(val)
+                    if poly is None:
+                        raise VerifError("instantiation of ghost %s of %s is not a field value" % (g, cname))
+                    st.mem[(o, ())] = RVal(poly, 0, None)
+                else:
+                    run.init_obj_fresh(st, o, g)
+                have[g] = o
+            st.cache[key] = have
+        for g, o in have.items():
+            env[g] = Ptr(o)
     pre_mem = dict(st.mem)
     ev0 = Evaluator(run, st, pre_mem, env, phase="pre")
     ev0.pkg = c.pkg
@@ -385,7 +439,11 @@ def apply_contract(run, st, name, args, ins, bindings=None):
     # result
     results = []
     rts = callee["results"]
-    evh0 = Evaluator(run, st, pre_mem, env, phase="pre")
+    env_h = dict(env)
+    for rn_, pol in errcase.items():
+        idx = int(rn_[6:]) if rn_ != "result" else 0
+        env_h[rn_] = wrapm(run, Iface(True) if pol else Iface(False, "error"), rts[idx])
+    evh0 = Evaluator(run, st, pre_mem, env_h, phase="pre")
     evh0.pkg = c.pkg
     hints = result_hints(c, evh0, c_ensures)
     for i, rt in enumerate(rts):
@@ -397,7 +455,7 @@ def apply_contract(run, st, name, args, ins, bindings=None):
             if h is None and hn is not None and hn[1] == ("bool", True):
                 results.append(NIL)
             elif h is not None and h[0] == "eq":
-                evh = Evaluator(run, st, pre_mem, env, phase="pre")
+                evh = Evaluator(run, st, pre_mem, env_h, phase="pre")
                 evh.pkg = c.pkg
                 v = evh.ev(h[1], True)
                 if isinstance(v, Ref):
@@ -440,6 +498,8 @@ def apply_contract(run, st, name, args, ins, bindings=None):
                 for p, lt in prog.leaves(et):
                     st.mem[(o, (j,) + p)] = run.fresh_value(st, lt, "res.%s[%d]" % (short(cname), j))
             results.append(SliceV(o, (), run.mk_int(0, 64), run.mk_int(ln, 64), run.mk_int(ln, 64)))
+        elif k == "interface" and rname in errcase:
+            results.append(Iface(True) if errcase[rname] else Iface(False, "error"))
         elif k == "interface":
             results.append(("iface?", rname))
         else:
@@ -470,6 +530,8 @@ def apply_contract(run, st, name, args, ins, bindings=None):
     for lab, ast, txt in c_ensures:
         st.assume(ev1.bool(ast))
     st.pending = {}
+    for rn_ in errcase:
+        st.decided.pop(("errcase", rn_, ins.get("reg"), st.block), None)
     if len(results) == 0:
         return None
     if len(results) == 1:
